@@ -43,6 +43,11 @@ EXPLANATION = (
     "tree, to {'None': sorted union of all groups}. Decides these "
     "structural conditions, not the equality of two runs' results.")
 
+EXPLANATION += (
+    ' Added after the seeded rounds: the back-fill provenance rules of '
+    'C01 are evaluated here as well.'
+)
+
 RULE_TEXT = (
     "one obligation per consumer of the tree, per reducer call, per "
     "drop_level(<config>) call site, per flatten rebinding")
